@@ -242,8 +242,14 @@ func H10_sessions() {
 		case 1, 3:
 			q = vrtByte("q")
 			vrtAssume(q <= 1)
-			ans := vrtExchange(c, &specPkt{Typ: specSUBSCRIBE, ID: 9, Topics: [][]byte{[]byte("t")}, QoS: []byte{q}})
-			vrtAssert("C10.harness_suback", vrtBytesEq(ans, []byte{0x90, 3, 0, 9, q}))
+			if action == 1 && vrtBool("refused_filter_first") {
+				// one request: a filter the broker refuses, then the accepted one
+				ans := vrtExchange(c, &specPkt{Typ: specSUBSCRIBE, ID: 9, Topics: [][]byte{[]byte("$SYS/#"), []byte("t")}, QoS: []byte{1 - q, q}})
+				vrtAssert("C10.harness_suback", vrtBytesEq(ans, []byte{0x90, 4, 0, 9, 0x80, q}))
+			} else {
+				ans := vrtExchange(c, &specPkt{Typ: specSUBSCRIBE, ID: 9, Topics: [][]byte{[]byte("t")}, QoS: []byte{q}})
+				vrtAssert("C10.harness_suback", vrtBytesEq(ans, []byte{0x90, 3, 0, 9, q}))
+			}
 			sub = true
 		case 2:
 			ans := vrtExchange(c, &specPkt{Typ: specUNSUBSCRIBE, ID: 9, Topics: [][]byte{[]byte("t")}})
@@ -275,4 +281,95 @@ func H10_sessions() {
 		wit.peerTake()
 	}
 	vrtReach("C10.history")
+}
+
+// H10_takeover: a client id connects again (CleanSession=0) while its old
+// connection is still up; the newer connection subscribes; the old one is torn
+// down later. The stored session keeps what was subscribed through either
+// connection, whatever the order of the endings.
+func H10_takeover() {
+	b := vrtBroker("mockSuccess")
+	wit, _ := b.connect(vrtConnectPkt([]byte("wit"), true))
+	a, _ := b.connect(vrtConnectPkt([]byte("x"), false))
+	vrtExchange(a, &specPkt{Typ: specSUBSCRIBE, ID: 1, Topics: [][]byte{[]byte("t1")}, QoS: []byte{1}})
+	bb, ack := b.connect(vrtConnectPkt([]byte("x"), false))
+	vrtAssert("C10.session_present_flag", vrtIsConnack(ack, true, 0))
+	q := vrtByte("q")
+	vrtAssume(q <= 1)
+	ans := vrtExchange(bb, &specPkt{Typ: specSUBSCRIBE, ID: 2, Topics: [][]byte{[]byte("t2")}, QoS: []byte{q}})
+	vrtAssert("C10.harness_suback", vrtBytesEq(ans, []byte{0x90, 3, 0, 2, q}))
+	first, second := a, bb
+	if vrtBool("newer_ends_first") {
+		first, second = bb, a
+	}
+	vrtEnd(first, vrtChoice("end1", 2))
+	vrtEnd(second, vrtChoice("end2", 2))
+	a.peerTake()
+	bb.peerTake()
+	wit.peerTake()
+	c, ack2 := b.connect(vrtConnectPkt([]byte("x"), false))
+	vrtAssert("C10.session_present_flag", vrtIsConnack(ack2, true, 0))
+	vrtExchange(wit, &specPkt{Typ: specPUBLISH, Flags: 2, ID: 60, Topic: []byte("t1"), Payload: []byte("1")})
+	vrtExchange(wit, &specPkt{Typ: specPUBLISH, Flags: 2, ID: 61, Topic: []byte("t2"), Payload: []byte("2")})
+	got, ok := vrtParse(c.peerTake())
+	vrtAssert("C10.stream_wellformed", ok)
+	vrtAssert("C10.restored_subscription_delivers", len(got) == 2)
+	if len(got) == 2 {
+		vrtAssert("C10.restored_subscription_topics", vrtAnd(vrtBytesEq(got[0].Topic, []byte("t1")), vrtBytesEq(got[1].Topic, []byte("t2"))))
+		vrtAssert("C10.restored_subscription_qos", vrtAnd((got[0].Flags>>1)&3 == 1, (got[1].Flags>>1)&3 == q))
+	}
+	vrtReach("C10.takeover")
+}
+
+// H09_pipelined: the client does not wait for CONNACK (MQTT 3.1.1 section
+// 3.1.4 allows that): CONNECT (with a will), a PUBLISH and DISCONNECT are sent
+// back to back and reach the broker in two segments cut at an arbitrary
+// position (inside the CONNECT, between the packets, or not at all). The
+// CONNECT is accepted, the PUBLISH is forwarded, the DISCONNECT discards the
+// will.
+func H09_pipelined() {
+	b := vrtBroker("mockSuccess")
+	wit, _ := b.connect(vrtConnectPkt([]byte("wit"), true))
+	vrtExchange(wit, &specPkt{Typ: specSUBSCRIBE, ID: 1, Topics: [][]byte{[]byte("#")}, QoS: []byte{0}})
+	wit.peerTake()
+	w := vrtWill{flag: true, qos: 0, topic: []byte("gone"), payload: []byte("w")}
+	connect := specEncode(vrtConnectWithWill([]byte("c"), vrtBool("clean"), w))
+	data := append([]byte(nil), connect...)
+	withPublish := vrtBool("publish")
+	if withPublish {
+		data = append(data, specEncode(&specPkt{Typ: specPUBLISH, Topic: []byte("p"), Payload: []byte("x")})...)
+	}
+	withDisconnect := vrtBool("disconnect")
+	if withDisconnect {
+		data = append(data, specEncode(&specPkt{Typ: specDISCONNECT})...)
+	}
+	cut := vrtChoice("cut", len(data)+1)
+	c := b.open()
+	c.peerSend(data[:cut])
+	vrtQuiesce()
+	c.peerSend(data[cut:])
+	vrtQuiesce()
+	vrtAssert("C09.pipelined_connect_accepted", vrtIsConnack(c.peerTake(), false, 0))
+	c.peerClose()
+	vrtQuiesce()
+	vrtAssert("C09.connection_closed", c.isClosed())
+	got, ok := vrtParse(wit.peerTake())
+	vrtAssert("C09.stream_wellformed", ok)
+	want := 0
+	if withPublish {
+		want++
+	}
+	if !withDisconnect {
+		want++
+	}
+	vrtAssert("C09.pipelined_publish_and_will", len(got) == want)
+	i := 0
+	if withPublish && len(got) == want {
+		vrtAssert("C09.pipelined_publish_forwarded", vrtAnd(vrtBytesEq(got[0].Topic, []byte("p")), vrtBytesEq(got[0].Payload, []byte("x"))))
+		i++
+	}
+	if !withDisconnect && len(got) == want {
+		vrtAssert("C09.will_topic", vrtBytesEq(got[i].Topic, []byte("gone")))
+	}
+	vrtReach("C09.pipelined")
 }
